@@ -212,6 +212,12 @@ func c08EstRun(rc *RunCtx, p *C08Params) {
 			}
 			data, kind = keyedMalformed(hr, x.ref12, k13, epoch, toServer, peerCID, uint64(1000+j))
 			kind = "keyed:" + kind
+		case cfg.C.MaxVer == 12 && hr.IntN(12) == 0:
+			// a change_cipher_spec record that names the current protected epoch: it carries no
+			// MAC, so inside a protected epoch it is a record that cannot authenticate
+			seq := uint64(hr.IntN(40))
+			data = []byte{CTChangeCipherSpec, 0xfe, 0xfd, 0, 1, 0, 0, 0, 0, byte(seq >> 8), byte(seq), 0, 1, 1}
+			kind = "ccs-in-protected-epoch"
 		case len(captured) > 0 && hr.IntN(3) == 0:
 			recs, _ := ParseDatagram(captured[hr.IntN(len(captured))], cidLen)
 			if len(recs) > 0 {
